@@ -384,6 +384,9 @@ func cmdRun(args []string) {
 				continue
 			}
 			s := samples[k-nViol]
+			if o != nil && o.Outcome == "cut" {
+				continue // the native route of this harness cannot realise this input (recorded assumption)
+			}
 			agree := o != nil && ((s.End == "ok" && o.Outcome == "ok") || (s.End == "panic" && o.Outcome == "panic")) && len(o.Failed) == 0 && sameReach(s.Reach, o.Reached)
 			if agree {
 				validated++
